@@ -378,6 +378,26 @@ func c12Run(c C12Case) c12Outcome {
 		}
 		return out
 	}
+	defer func() {
+		// afterwards the same requester asks for everything: the answer is the user's record as stored (whatever the first
+		// query asked for must not have altered what the storage holds)
+		if len(out.vs) > 0 || spIdx < 0 || c.SignFault != "" {
+			return
+		}
+		q2 := spsim.NewAttrQuery("_second-query", issuer, subject)
+		hr2, _, _ := spsim.Encode(c.Spec.IdP.Route("attribute"), xt.Write(spsim.Envelope(q2.QueryTree(plainStyle), "soap"), plainStyle.W), spsim.Transport{Binding: "soap"}, nil)
+		hr2.Host = c.Host
+		rep2 := obs.Do(w.Handler, hr2)
+		d2 := obs.Decode(rep2)
+		r2 := obs.ReadResponse(obs.FindResponse(d2.Root()))
+		u2, ok := w.Store.UserByLogin(subject)
+		if r2 == nil || !r2.Success() || len(r2.Assertions) != 1 || !ok {
+			return
+		}
+		if diff := attrMultisetDiff(expectedAttrs(u2), r2.Assertions[0].Attrs); diff != "" {
+			add("stored-record-altered", "a second, unfiltered query for the same subject does not return the stored record: %s", diff)
+		}
+	}()
 	if c.SignFault != "" {
 		add("disclosed-although-signing-cannot-work", "user data disclosed although the answer cannot be signed (%s)", c.SignFault)
 		return out
